@@ -587,3 +587,62 @@ spec("C08", plan=plan_actions("C08"),
           "nothing); no hooks for rules with disabled control; raise only inside must/raise rules.  Non-trivial: runs with an unwind or "
           "a vetoed action.",
      assumptions=COMMON_ASSUME)
+
+# ---------------------------------------------------------------------------- C06
+C06_ATOMS = ["any", "one", "nl_one", "nl_set", "not_one_nl", "range_ws", "not_range_ws", "not_range_a", "ranges_nl", "string_nl",
+             "istring_nl", "bytes2", "eol", "eolf", "until_eol", "until_nl_any", "utf8_any", "utf8_one_nl", "utf8_not_one",
+             "utf8_range_nl", "utf8_not_range", "utf8_string_nl", "three_nl", "rep_one_nl", "ab", "eof"]
+
+
+def write_tus_eol(workdir, tag, grammars, per_tu, cfgset, extra_includes, eol):
+    targets = []
+    for i in range(0, len(grammars), per_tu):
+        chunk = grammars[i:i + per_tu]
+        src = gen.emit_tu(chunk, cfgset=cfgset, extra_includes=extra_includes, first_index=i, eol=eol)
+        h = hashlib.sha1(src.encode()).hexdigest()[:10]
+        path = os.path.join(workdir, "%s_e%d_%03d_%s.cpp" % (tag, eol, i // per_tu, h))
+        open(path, "w").write(src)
+        targets.append(Target("%s_e%d_%03d" % (tag, eol, i // per_tu), path, mode="o0"))
+    return targets
+
+
+def plan_c06(tier, seed, workdir, case):
+    if case is not None:
+        if case.get("kind") == "zoo":
+            t = zoo_targets()[int(case["group"])]
+            return [Run(t, args=["--prop", "C06"])]
+        g = gen.Grammar.from_json(case["grammar"])
+        eol = int(case["grammar"].get("note", "eol0")[3:] or 0) if str(case["grammar"].get("note", "")).startswith("eol") else 0
+        ts = write_tus_eol(workdir, "replay", [g], 1, 5, C09_INCLUDES, eol)
+        return [Run(ts[0], args=["--prop", "C06"])]
+    import random
+    rnd = random.Random(seed * 19 + 11)
+    q = tier == "quick"
+    runs = [Run(t, args=["--prop", "C06"]) for t in zoo_targets()]
+    n = 30 if q else 300
+    for eol in range(5):
+        G = gen.Gen(seed * 1000 + 61 + eol, ops=CORE_OPS + ["until", "rep", "list", "if_then_else", "opt_must", "rep_min_max", "must", "rematch"],
+                    atoms=C06_ATOMS, max_depth=3 if q else 4)
+        gs = []
+        for _ in range(n):
+            g, rej = G.grammar()
+            attach_actions(g, rnd, [1, 2, 3], density=0.4)  # bool actions never veto here (veto flag off): they only change who rewinds
+            g.alphabet = "a\n\rb"
+            g.maxlen = (5, 6)
+            g.note = "eol%d" % eol
+            gs.append(g)
+        for t in write_tus_eol(workdir, "c06", gs, 10 if q else 25, 5, C09_INCLUDES, eol):
+            runs.append(Run(t, args=["--prop", "C06"]))
+    return runs
+
+
+spec("C06", plan=plan_c06,
+     rule="(a) random grammars over the alphabet {a, b, LF, CR} whose atoms are chosen so that the compile-time 'can this rule consume an "
+          "end-of-line character' decision matters (one/not_one/range/not_range/ranges/string/istring/bytes/any/eol/eolf/until/three/"
+          "rep_one_min_max and the utf8 rules, with and without LF/CR in their sets), all five end-of-line policies, eager and lazy "
+          "tracking, default and non-default initial counters (byte 7, line 5, column 4), all inputs to length 5/6 plus rapidcheck strings; "
+          "(b) the rule zoo of C02 (byte-oriented and UTF-8 rules only) on exhaustive short strings.  Oracle: at every control hook, every "
+          "rule exit, every action input and every raise, the reported byte/line/column must equal the values computed from the consumed "
+          "prefix alone: byte = byte0 + k, line = line0 + #(eol characters in prefix), column = 1 + bytes since the last one (column0 + k "
+          "if none).  Non-trivial: an observation whose consumed prefix contains an end-of-line character; distinct = (grammar, input).",
+     assumptions=COMMON_ASSUME + ["UTF-16/32 and multi-byte binary rules are excluded as the property states"])
